@@ -306,6 +306,15 @@ fn scenario_pairs() -> Vec<(&'static str, &'static str, &'static str)> {
             r##"<svg><rect wh="2"/><var k="1"/><rect xy="^|h 1" wh="$k"/><var k="9"/><rect id="later" xy="0 20" wh="10"/></svg>"##),
         ("deferred-sibling/if-in-a", r##"<svg><var k="0"/><a><if test="eq($k,0)"><var k="1"/><rect xy="0" wh="5"/></if><rect xy="#later|v 2" wh="5"/></a><rect id="later" xy="0 20" wh="5"/></svg>"##,
             r##"<svg><var k="0"/><a><var k="1"/><rect xy="0" wh="5"/><rect xy="#later|v 2" wh="5"/></a><rect id="later" xy="0 20" wh="5"/></svg>"##),
+        // third review round
+        ("waiting-unit/assignment-too-late", r##"<svg><var k="1"/><loop count="2"><var k="{{$k+1}}"/><rect xy="#z|h 2" wh="1"/></loop><rect id="z" wh="$k"/></svg>"##,
+            r##"<svg><var k="1"/><var k="{{$k+1}}"/><rect xy="#z|h 2" wh="1"/><var k="{{$k+1}}"/><rect xy="#z|h 2" wh="1"/><rect id="z" wh="$k"/></svg>"##),
+        ("waiting-unit/later-pass-reference", r##"<svg><loop count="3" loop-var="i"><rect id="r$i" xy="#r{{$i+1}}|h 2" wh="5"/></loop><rect id="r3" wh="5"/></svg>"##,
+            r##"<svg><rect id="r0" xy="#r1|h 2" wh="5"/><rect id="r1" xy="#r2|h 2" wh="5"/><rect id="r2" xy="#r3|h 2" wh="5"/><rect id="r3" wh="5"/></svg>"##),
+        ("waiting-unit/previous-element-inside", r##"<svg><if test="1"><rect xy="#z|h 2" wh="2"/><rect xy="12 17" wh="1"/></if><rect id="z" xy="^|h 2" wh="1"/></svg>"##,
+            r##"<svg><rect xy="#z|h 2" wh="2"/><rect xy="12 17" wh="1"/><rect id="z" xy="^|h 2" wh="1"/></svg>"##),
+        ("alternating-loops", r##"<svg><rect id="a0" wh="1"/><loop count="6" loop-var="i" start="1"><rect id="a$i" xy="#b$i|h 2" wh="1"/></loop><loop count="6" loop-var="i" start="1"><rect id="b$i" xy="#a{{$i-1}}|h 2" wh="1"/></loop></svg>"##,
+            r##"<svg><rect id="a0" wh="1"/><rect id="a1" xy="#b1|h 2" wh="1"/><rect id="a2" xy="#b2|h 2" wh="1"/><rect id="a3" xy="#b3|h 2" wh="1"/><rect id="a4" xy="#b4|h 2" wh="1"/><rect id="a5" xy="#b5|h 2" wh="1"/><rect id="a6" xy="#b6|h 2" wh="1"/><rect id="b1" xy="#a0|h 2" wh="1"/><rect id="b2" xy="#a1|h 2" wh="1"/><rect id="b3" xy="#a2|h 2" wh="1"/><rect id="b4" xy="#a3|h 2" wh="1"/><rect id="b5" xy="#a4|h 2" wh="1"/><rect id="b6" xy="#a5|h 2" wh="1"/></svg>"##),
         ("deferred-body/reference-within-pass", r##"<svg><rect wh="1"/><loop count="2"><circle cxy="#b@c" r="1"/><rect id="b" xy="^|v 5" wh="6"/></loop></svg>"##,
             r##"<svg><rect wh="1"/><circle cxy="#b@c" r="1"/><rect id="b" xy="^|v 5" wh="6"/><circle cxy="#b@c" r="1"/><rect id="b" xy="^|v 5" wh="6"/></svg>"##),
     ]
